@@ -291,6 +291,9 @@ func (h *harness) allocSweep(label string, proto, hver, hflags, op int, body []b
 			alloc := allocDelta(func() { c04lib.Parse(proto, hver, hflags, op, c) })
 			h.o.Count("alloc-count-field(monitor-only)")
 			if alloc <= uint64(64*len(c)+4<<20) {
+				if op == c04lib.OpResult && !h.consumerAllocCheck(fmt.Sprintf("%s with %d written at offset %d", label, v, off), proto, hver, hflags, op, c) {
+					return false
+				}
 				continue
 			}
 			ok = false
@@ -302,6 +305,80 @@ func (h *harness) allocSweep(label string, proto, hver, hflags, op int, body []b
 		}
 	}
 	return ok
+}
+
+// iterConsumers: what an application (and the driver itself, for system.local / system.peers) does with a rows
+// frame -- SliceMap, a MapScan loop, a RowData+Scan loop, the Scanner, RowData -- each on a fresh parse of the body.
+// Loops are cut after 64 rows: what is measured is what the driver allocates per call, not what a caller
+// accumulates.  Returns the consumer that allocated most and its bytes; panics are reported.
+func (h *harness) iterConsumers(proto, hver, hflags, op int, body []byte) (worstName string, worst uint64) {
+	consumers := []struct {
+		name string
+		f    func(it *gocql.Iter)
+	}{
+		{"Iter.SliceMap", func(it *gocql.Iter) { it.SliceMap() }},
+		{"Iter.MapScan", func(it *gocql.Iter) {
+			for i := 0; i < 64 && it.MapScan(map[string]interface{}{}); i++ {
+			}
+		}},
+		{"Iter.Scan", func(it *gocql.Iter) {
+			for i := 0; i < 64; i++ {
+				rd, err := it.RowData()
+				if err != nil || !it.Scan(rd.Values...) {
+					return
+				}
+			}
+		}},
+		{"Scanner", func(it *gocql.Iter) {
+			sc := it.Scanner()
+			for i := 0; i < 64 && sc.Next(); i++ {
+				rd, err := it.RowData()
+				if err != nil || sc.Scan(rd.Values...) != nil {
+					return
+				}
+			}
+		}},
+		{"Iter.RowData", func(it *gocql.Iter) { it.RowData() }},
+	}
+	for _, c := range consumers {
+		out := c04lib.Parse(proto, hver, hflags, op, body)
+		if out.Class != "ok" || out.Frame.Kind != "rows" {
+			return
+		}
+		if out.Frame.NumRows > 5000000 {
+			// an unaligned window can make the row count 2^28: a consumer that allocates per claimed row would
+			// take the machine down rather than fail a check; 10^6 and 4*10^6 in the count itself are enough
+			h.o.Count("alloc-iter-consumer-skipped-huge-row-count")
+			return
+		}
+		it := out.Framer.Iter(out.Frame)
+		alloc := allocDelta(func() {
+			defer func() {
+				if p := recover(); p != nil {
+					h.reportPanic(-1, c.name, c04lib.Classify(p), hlib.ZList(body))
+				}
+			}()
+			c.f(it)
+		})
+		h.o.Count("alloc-iter-consumer(monitor-only)")
+		if alloc > worst {
+			worstName, worst = c.name, alloc
+		}
+	}
+	return
+}
+
+// consumerAllocCheck reports a consumer that allocates out of proportion to the body; false = found one.
+func (h *harness) consumerAllocCheck(label string, proto, hver, hflags, op int, body []byte) bool {
+	name, alloc := h.iterConsumers(proto, hver, hflags, op, body)
+	if alloc <= uint64(64*len(body)+4<<20) {
+		return true
+	}
+	h.kept["alloc-consumer"]++
+	if h.kept["alloc-consumer"] <= 5 {
+		h.o.Violate(-1, "allocation-out-of-proportion", "", fmt.Sprintf("a %d-byte %s body (protocol %d) made %s allocate %d bytes", len(body), label, proto, name, alloc), hlib.ZList(body))
+	}
+	return false
 }
 
 func measureAlloc(f func()) uint64 {
@@ -355,6 +432,17 @@ func main() {
 			if alloc > uint64(64*len(b)+4<<20) {
 				safe = false
 				o.Violate(-1, "allocation-out-of-proportion", "", fmt.Sprintf("a %d-byte RESULT rows body claiming %d columns made parseFrame allocate %d bytes", len(b), cc, alloc), hlib.ZList(b))
+			}
+		}
+		// rows frames that claim far more rows than they hold: one int column / no column / NO_METADATA, no row content
+		for _, rc := range []int{1000000, 4000000, 4194304} {
+			// metadata: flags (1 global spec, 4 no metadata), column count, [ks, table, name, type int]
+			oneCol := append(append(c04lib.EncInt(1), c04lib.EncInt(1)...), append(append(c04lib.EncString("ks"), c04lib.EncString("tb")...), append(c04lib.EncString("c"), 0, 9)...)...)
+			for _, pre := range [][]byte{oneCol, append(c04lib.EncInt(0), c04lib.EncInt(0)...), append(c04lib.EncInt(4), c04lib.EncInt(1)...), append(c04lib.EncInt(4), c04lib.EncInt(0)...)} {
+				b := append(append(c04lib.EncInt(2), pre...), c04lib.EncInt(rc)...)
+				if !h.consumerAllocCheck(fmt.Sprintf("RESULT rows (row count %d, no row content)", rc), 4, 0x84, 0, c04lib.OpResult, b) {
+					safe = false
+				}
 			}
 		}
 		if !safe {
@@ -675,6 +763,8 @@ func main() {
 	}
 
 	o.Extra["panics_by_site"] = h.panics
+	// ---- PREPARED / rows replies the layers above parseFrame must survive, on a real session -------------------
+	execScenarios(h)
 	// ---- the driver's own goroutines: handshake and heartbeat against a scripted node, in child processes ------
 	connScenarios(o)
 	o.Finish("From GocqlV Require Import Lib.Base C04.Model C04.Spec C04.Corr C05.Model C05.Conn C05.Corr.", "C05.Corr.case", "C05.Corr.run")
